@@ -35,7 +35,7 @@ RULE = (
     "of the clean output, and a clean call on the same closure follows. (3) Schedules: 2-3 threads with drawn "
     "create/use programs start from cold caches under a deterministic line-granularity scheduler (sys.settrace in "
     "src/kio, token passing); the interleaving is a drawn list of <=3 preemptions (global step, target thread); "
-    "additionally ONE preemption is swept over EVERY step of fixed two/three-thread programs (warm and cold caches, two different values of one class) exhaustively, and EVERY PAIR of preemptions (park thread 0 at k1, park thread 1 at k2, resume 0, then 1) is swept over a warm two-thread program whose values hold multi-item arrays. (4) Orders: in 4 (quick) / 14 (thorough) fresh processes the readers and writers of ALL 1629 classes are created and used in a different order (forward, reverse, seeded shuffles); per class up to 12 fixed calls (decode of a populated, a zero, a conforming explicit-default/explicit-null and up to three null-in-non-nullable encodings; encode of the corresponding instances) must have the same outcome (value or exception type) in every order; a difference is bisected to the earlier class that causes it. Non-trivial = history with a failed call "
+    "additionally ONE preemption is swept over EVERY step of fixed two/three-thread programs (warm and cold caches, two different values of one class) exhaustively, and EVERY PAIR of preemptions (park thread 0 at k1, park thread 1 at k2, resume 0, then 1) is swept over a warm two-thread program whose values hold multi-item arrays. (4) Orders: in 4 (quick) / 14 (thorough) fresh processes the readers and writers of ALL 1629 classes are created and used in a different order (forward, reverse, seeded shuffles); per class up to 12 fixed calls (decode of a populated, a zero, a conforming explicit-default/explicit-null and up to three null-in-non-nullable encodings; encode of the corresponding instances) must have the same outcome (value or exception type) in every order; a difference is bisected to the earlier class that causes it. (5) Repetition: for 32 classes one cached writer and one cached reader are called 20000 (quick) / 300000 (thorough) times each on a populated value; every result must equal the reference encoding / the value. Non-trivial = history with a failed call "
     "followed by a successful call on the same closure / fault k strictly inside the call / schedule with >=1 "
     "preemption landing inside entity_reader/entity_writer construction or read_entity/write_entity; distinct by hash."
 )
@@ -919,6 +919,57 @@ def _bisect_culprit(spec: str, path: str, label: str, alone: str | None) -> str 
 
 
 
+# --------------------------------------------------------------------------- (5) many uses of one cached closure
+
+
+def repetition(path: str, n: int) -> list[tuple[str, str]]:
+    """n encodes and n decodes through ONE cached writer/reader: every result must equal the reference encoding / the
+    first decoded value ("however often the same cached reader or writer has been used")."""
+    cd = D.describe(D.resolve(path))
+    tree = populated_tree(cd, 2, 0)
+    want = ref_encode(cd, tree)
+    value = to_entity(cd, tree)
+    clear_caches()
+    writer = K.entity_writer(cd.cls)
+    reader = K.entity_reader(cd.cls)
+    out = []
+    first = None
+    for i in range(n):
+        buf = io.BytesIO()
+        writer(buf, value)
+        if buf.getvalue() != want:
+            out.append(("repeat:encode-differs", f"{path}: call {i + 1} of the cached writer produced {buf.getvalue().hex()[:200]}, "
+                        f"reference {want.hex()[:200]}"))
+            break
+    for i in range(n):
+        src = io.BytesIO(want)
+        got = reader(src)
+        if first is None:
+            first = got
+        if src.tell() != len(want) or not py_equal(got, first) or not py_equal(got, value):
+            out.append(("repeat:decode-differs", f"{path}: call {i + 1} of the cached reader returned {got!r:.300} "
+                        f"(consumed {src.tell()} of {len(want)}), first call {first!r:.300}"))
+            break
+    clear_caches()
+    return out
+
+
+def _repeat_worker(task):
+    paths, n = task
+    rep = Report(prop=ID, level="exploration", rule=RULE)
+    c = {"repeat_calls": 0}
+    for path in paths:
+        fails = repetition(path, n)
+        rep.evaluations += 2 * n
+        c["repeat_calls"] += 2 * n
+        rep.nontrivial.add(case_hash(("repeat", path, n)))
+        for sig, msg in fails:
+            rep.add_failure(Failure(sig, msg, {"kind": "repeat", "class": path, "n": n}, 1))
+    rep.extra["counters"] = c
+    return rep
+
+
+
 def run(ctx: Ctx) -> Report:
     total = Report(prop=ID, level="exploration", rule=RULE)
     shards = 16
@@ -952,6 +1003,11 @@ def run(ctx: Ctx) -> Report:
         total.merge(rep)
     # (4) creation/use orders, each in a fresh process
     order_stage(ctx, total)
+    # (5) many uses of one cached closure
+    n_rep = 20000 if ctx.quick else 300000
+    rpaths = paths[:32]
+    for rep in pool_map(_repeat_worker, [(rpaths[i::shards], n_rep) for i in range(shards)]):
+        total.merge(rep)
     c = total.extra.get("counters", {})
     if c.get("preemptions_landed", 0) < c.get("schedules", 0) // 2:
         raise HarnessError(f"generator health: only {c.get('preemptions_landed')} preemptions landed in {c.get('schedules')} schedules")
@@ -972,6 +1028,8 @@ def replay(case):
     if kind == "schedule":
         programs = [[tuple(op) for op in p] for p in case["programs"]]
         return eval_schedule(case["items"], programs, [tuple(p) for p in case["preemptions"]])[0]
+    if kind == "repeat":
+        return repetition(case["class"], case["n"])
     if kind == "order":
         alone, after = order_pair_differs(case.get("first"), case["then"], case["label"])
         if alone != after:
